@@ -277,7 +277,7 @@ def part_positions(sh, res):
                     res.feat('fstring_names')
                     res.nontrivial += 1
     # scale probe: long names (a common prefix of 12+ characters, differing only in the tail; a 40-character name)
-    longn = ['customer_name_1', 'customer_name_2', 'customer_name_10', 'customer name (2019), "net"', 'x' * 40, 'x' * 39 + 'y']
+    longn = ['customer_name_1', 'customer_name_2', 'customer_name_10', 'customer name (2019), "net"', 'x' * 40, 'x' * 39 + 'y', 'w{[<>]}z', 'p"""""q', 'cost ~~~~~ total', 'a------b', "q'''''''r"]
     for n1 in longn:
         for n2 in longn:
             if n1 == n2:
